@@ -103,6 +103,16 @@ func c11(tier string) []*explore.Scenario {
 		c11One(abandon{"caller-cancels", 8, 0, false, false, true}, 64, 1, 0))...)
 	out = append(out, withConfig(configKinds(tier), c11One(abandon{"handler-returns", 2, 0, false, false, false}, 64, 1, 1), c11One(abandon{"caller-cancels", 3, 1, false, false, false}, 0, 1, 1),
 		c11One(abandon{"caller-cancels", 8, 0, false, false, true}, 64, 1, 0))...)
+	// the abandoned stream ends by its caller's deadline (carried to the server in the timeout header) with responses unread
+	for _, nk := range [][2]int{{2, 0}, {4, 0}, {8, 0}, {8, 3}} {
+		for _, cp := range []int{0, 64} {
+			b := 0
+			if nk[0] <= 2 {
+				b = 1
+			}
+			out = append(out, c11One(abandon{"caller-deadline", nk[0], nk[1], false, false, false}, cp, 1, b))
+		}
+	}
 	// the reset that follows a cancellation is taken by the transport only after the unread
 	// responses have all arrived
 	for _, nk := range [][2]int{{2, 0}, {3, 1}, {5, 0}, {6, 1}, {8, 0}, {8, 1}, {8, 4}} {
@@ -152,7 +162,7 @@ func c11One(a abandon, capn, others, bound int) *explore.Scenario {
 					}
 					r.CDone = true
 				})
-			case "caller-cancels", "caller-stops":
+			case "caller-cancels", "caller-stops", "caller-deadline":
 				w.Handlers["ab"] = func(r *env.Rec, ss grpc.ServerStream) error {
 					for i := 0; i < a.n; i++ {
 						if err := ss.SendMsg(env.S(fmt.Sprintf("b%d", i))); err != nil {
@@ -168,6 +178,10 @@ func c11One(a abandon, capn, others, bound int) *explore.Scenario {
 				}
 				vsched.GoNamed("caller-ab", func() {
 					ctx, cancel := context.WithCancel(context.Background())
+					if a.mode == "caller-deadline" {
+						// the caller's own deadline ends the stream (the server learns it from the timeout header too)
+						ctx, cancel = context.WithTimeout(context.Background(), 100*time.Millisecond)
+					}
 					cs := w.Open(d.CC, ctx, r)
 					if cs != nil {
 						for i := 0; i < a.k; i++ {
@@ -198,6 +212,9 @@ func c11One(a abandon, capn, others, bound int) *explore.Scenario {
 				or := w.Rec(fmt.Sprintf("o%d", i), "Unary")
 				orecs = append(orecs, or)
 				vsched.GoNamed("other-"+or.Tag, func() { w.CallUnary(d.CC, context.Background(), or, "x") })
+			}
+			if a.mode == "caller-deadline" {
+				vsched.QuiesceTime()
 			}
 			vsched.Quiesce()
 			if a.rstSlow {
